@@ -1,4 +1,5 @@
 import RlModel.Lemmas.Exec
+import RlModel.Lemmas.ValOrderRel
 /-!
 C02 — query answers follow standard SQL semantics on the core relational subset.
 
@@ -246,14 +247,18 @@ theorem insertStable_sorted {α} (cmp : α → α → Ordering) (hc : CmpLaws cm
       · exact hc.total _ _ (by simpa using hnlt)
       · exact hs.1 z hz'
 
-/-- ORDER BY returns a permutation of its input that is sorted by the keys (for any comparator
-that is a total preorder). -/
+/-- `Val.cmp` is a linear order (Lemmas/ValOrder.lean), hence the ORDER BY comparator — lexicographic
+over the keys, each with its direction flag — satisfies the laws (Lemmas/ValOrderRel.lean). -/
+theorem orderCmp_laws (ks : List OrderKey) : CmpLaws (orderCmp ks) :=
+  ⟨orderCmp_total ks, orderCmp_trans ks⟩
+
+/-- ORDER BY returns a permutation of its input that is sorted by the keys — unconditionally. -/
 theorem order_is_sorted_perm (ks : List OrderKey) (X : List Row) :
-    (orderRel ks X).Perm X ∧ (CmpLaws (orderCmp ks) → SortedBy (orderCmp ks) (orderRel ks X)) := by
+    (orderRel ks X).Perm X ∧ SortedBy (orderCmp ks) (orderRel ks X) := by
   constructor
   · unfold orderRel sortStable
     simpa using sortStable_perm_aux (orderCmp ks) X []
-  · intro hc
+  · have hc := orderCmp_laws ks
     unfold orderRel sortStable
     suffices h : ∀ acc, SortedBy (orderCmp ks) acc →
         SortedBy (orderCmp ks) (X.foldl (fun acc x => insertStable (orderCmp ks) x acc) acc) by
@@ -262,6 +267,8 @@ theorem order_is_sorted_perm (ks : List OrderKey) (X : List Row) :
     | nil => intro acc h; exact h
     | cons x xs ih => intro acc h; exact ih _ (insertStable_sorted _ hc x acc h)
 
+/-- … and equal keys keep their input order is not claimed of the implementation
+(`sort_unstable_by`); the model's sort is stable. -/
 example : orderRel [{ key := fun r => r.getD 0 .null, desc := true }] [[.i32 1], [.null], [.i32 3]] =
     [[.i32 3], [.i32 1], [.null]] := by decide
 
